@@ -2037,7 +2037,11 @@ impl Sessions {
                 .flat_map(|sess| sess.exchanges.iter())
                 .filter_map(|exch| exch.as_ref())
                 .all(|exch| {
-                    !matches!(exch.role, Role::Responder(_)) || exch.exch_id != next_exch_id
+                    // Exchange ids allocated here are used for exchanges *we* initiate,
+                    // so they must not collide with our live initiator-role exchanges.
+                    // (Responder-role exchanges carry ids chosen by the peer and live
+                    // in a separate id space - see `ExchangeState::is_for_rx`.)
+                    !matches!(exch.role, Role::Initiator(_)) || exch.exch_id != next_exch_id
                 })
             {
                 break;
